@@ -1090,7 +1090,12 @@ def latent_conflict(fixture, hist):
     """the history creates an object under a primary key (or with the unique value 'u1') that already exists in the database but is
     not loaded: a latent key conflict that Pony can only report at flush (C14). Labels then denote
     two different things, so view-based monitors skip such states."""
-    return fixture.startswith('populated') and any(op[0] == 'create' and (op[2] in (1, 2) or 'u1' in op[3].values()) for op in hist)
+    if not fixture.startswith('populated'): return False
+    for op in hist:
+        if op[0] == 'create' and (op[2] in (1, 2) or 'u1' in op[3].values()): return True
+        if op[0] == 'set' and op[3] == 'u1': return True                     # the value is held by a row that may not be loaded
+        if op[0] == 'setm' and any(v == 'u1' for _, v in op[2]): return True
+    return False
 
 DEEP_MODELS = ('o2m-req', 'o2m', 'o2o', 'o2o-req', 'm2m', 'sym_o2o', 'sym_m2m', 'self_o2m', 'casc3', 'mix3')
 def deep_model(name):
